@@ -266,6 +266,7 @@ def run(run):
     c16.tablets(run, fx)
     c16.ownfield(run, fx)
     c16.overwrite(run, fx)
+    c16.freenull(run, fx)
     c16.ownlocal(run, fx, None)
     run.assume('allocation failure is outside the quantifier (inputs, configurations)')
     run.observe('general absence of out-of-bounds reads in the table parsers is not decided: the parsers are safe partly by arithmetic that no check states '
